@@ -818,8 +818,8 @@ class Target:
                     view[k[len(NS_PREFIX):]] = v
                 else:
                     outside[k] = v
-            return st, view, outside
-        return st, raw, {}
+            return st, view, outside, raw
+        return st, raw, {}, raw
 
     def model_kind(self) -> str:
         return {"nsdisk": "nsdisk:" + hx(NS), "nsdict": "nsdict:" + hx(NS)}.get(self.backend, self.backend)
@@ -859,14 +859,15 @@ def gen_init(rng, repos: Repos) -> list:
     for n in names:
         if collides(have, n):
             continue
-        v = repos.TG if (n.startswith(b"refs/tags/") and rng.random() < 0.7) else rng.choice(repos.values)
+        commits = repos.values[:3]                      # git refuses a tag object under refs/heads/
+        v = repos.TG if (n.startswith(b"refs/tags/") and rng.random() < 0.7) else rng.choice(commits)
         mode = rng.choice(["loose", "packed", "packed", "both"])
         if mode in ("packed", "both"):
             init.append(["packed", n, v])
         if mode == "loose":
             init.append(["loose", n, v])
         if mode == "both":
-            init.append(["loose", n, rng.choice([x for x in repos.values if x != v])])
+            init.append(["loose", n, rng.choice([x for x in commits if x != v])])
         have[n] = v
     for n in (b"refs/heads/s", b"refs/heads/t"):
         if n not in have and not collides(have, n) and rng.random() < 0.4:
@@ -874,7 +875,7 @@ def gen_init(rng, repos: Repos) -> list:
             have[n] = b"sym"
     r = rng.random()
     if r < 0.3:
-        init.append(["loose", HEAD, rng.choice(repos.values)])          # detached
+        init.append(["loose", HEAD, rng.choice(repos.values[:3])])      # detached
     elif r < 0.6:
         init.append(["symref", HEAD, rng.choice([b"refs/heads/a", b"refs/heads/s", b"refs/heads/a/b"])])
     return init
@@ -948,11 +949,16 @@ def gen_op(rng, m: dict, repos: Repos):
 # ------------------------------------------------------------------------------------------------
 # classification of oracle failures (narrow classes; anything else stays unclassified)
 
-def classify(backend: str, op, ret: str, pre_raw: dict, post_raw: dict, pre_st, repos: Repos):
+def classify(backend: str, op, ret: str, pre_raw: dict, post_raw: dict, pre_st, repos: Repos, pre_full=None,
+             post_full=None):
+    """pre_raw/post_raw: the container's own view; pre_full/post_full: the raw map of the underlying
+    container (differs from the view only for the namespaced backends)."""
     k = op[0]
     disk = backend in ("disk", "nsdisk")
     ap = (lambda n: ns_apply(n)) if backend in ("nsdisk", "nsdict") else (lambda n: n)
-    if k == "Y" and ret == "err:symrefloop" and spec_follow(pre_raw, op[1]) in ("loop", "deep"):
+    pre_full = pre_raw if pre_full is None else pre_full
+    post_full = post_raw if post_full is None else post_full
+    if k == "Y" and ret == "err:symrefloop" and spec_follow(pre_full, ap(op[1])) in ("loop", "deep"):
         return "set_symbolic_ref-on-symref-loop"
     if backend in ("nsdisk", "nsdict") and k == "Y" and ret == "ok" and \
             post_raw.get(op[1]) == SYM + ns_apply(op[2]) and op[2].startswith(b"refs/"):
@@ -982,19 +988,23 @@ def classify(backend: str, op, ret: str, pre_raw: dict, post_raw: dict, pre_st, 
                 if anc_packed and k in ("A", "Y"):
                     return "disk-create-under-packed-only-ancestor"
             if ret == "err:os" and not collides(pre_raw, r):
-                if pr in dirs:
+                if pr in dirs and not any(is_anc(pr, x) for x in pre_full):
                     return "disk-stale-empty-directory-blocks-create"
                 parent = pr.rsplit(b"/", 1)[0] if b"/" in pr else None
                 if k == "Y" and parent is not None and parent not in dirs:
                     return "disk-set_symbolic_ref-parent-directory-missing"
+    if k in ("R", "X") and ret == "err:os":
+        pr = ap(op[1])
+        if pr in dirs and not any(is_anc(pr, x) for x in pre_full):
+            return "disk-stale-empty-directory-blocks-delete"
     if k == "K":
-        loops = [x for x in pre_raw if x != HEAD and spec_follow(pre_raw, x) in ("loop", "deep")]
+        loops = [x for x in pre_full if x != HEAD and spec_follow(pre_full, x) in ("loop", "deep")]
         if ret == "err:symrefloop" and loops:
             return "disk-pack_refs-raises-on-symref-loop"
         if ret == "ok":
-            changed = [x for x in set(pre_raw) | set(post_raw) if pre_raw.get(x) != post_raw.get(x)]
-            if changed and all(x in pre_raw and pre_raw[x].startswith(SYM) and x != HEAD and
-                               post_raw.get(x) == spec_as_dict(pre_raw).get(x) for x in changed):
+            changed = [x for x in set(pre_full) | set(post_full) if pre_full.get(x) != post_full.get(x)]
+            if changed and all(x in pre_full and pre_full[x].startswith(SYM) and x != HEAD and
+                               post_full.get(x) == spec_as_dict(pre_full).get(x) for x in changed):
                 return "disk-pack_refs-replaces-symref-by-value"
     if k == "E":
         n = ap(op[1])
@@ -1042,8 +1052,8 @@ MUTATORS = ("S", "I", "A", "R", "X", "Y", "K", "O")
 
 
 def oracle_step(ctx, stream, mk_case, backend, op, ret, pre, post, repos):
-    pre_st, pre_raw, pre_out = pre
-    post_st, post_raw, post_out = post
+    pre_st, pre_raw, pre_out, pre_full = pre
+    post_st, post_raw, post_out, post_full = post
     k = op[0]
     if pre_out != post_out:
         ctx.oracle_fail(stream, mk_case(), f"operation through the namespace changed refs outside it: "
@@ -1065,7 +1075,7 @@ def oracle_step(ctx, stream, mk_case, backend, op, ret, pre, post, repos):
         for pred, m2 in allowed:
             if ret_matches(pred, ret) and post_raw == m2:
                 return "ok"
-        cls = classify(backend, op, ret, pre_raw, post_raw, pre_st, repos)
+        cls = classify(backend, op, ret, pre_raw, post_raw, pre_st, repos, pre_full, post_full)
         exp = " or ".join(f"{p} with {'unchanged state' if m2 == pre_raw else 'the updated map'}" for p, m2 in allowed)
         diff = sorted(x for x in set(post_raw) | set(allowed[0][1]) if post_raw.get(x) != allowed[0][1].get(x))
         ctx.oracle_fail(stream, mk_case(), f"{backend}: {op_readable(op)} returned {ret}; the map spec says {exp}; "
@@ -1079,7 +1089,7 @@ def oracle_step(ctx, stream, mk_case, backend, op, ret, pre, post, repos):
         return "unspecified"
     if canon_ret(ret) in {canon_ret(e) for e in exp}:
         return "ok"
-    cls = classify(backend, op, ret, pre_raw, post_raw, pre_st, repos)
+    cls = classify(backend, op, ret, pre_raw, post_raw, pre_st, repos, pre_full, post_full)
     ctx.oracle_fail(stream, mk_case(), f"{backend}: {op_readable(op)} gave {ret[:120]}; the map spec says "
                                        f"{sorted(exp)[0][:120]}", cls)
     return "fail"
@@ -1117,7 +1127,8 @@ def git_view_check(ctx, stream, mk_case, repos: Repos, d: Path, st, c):
         ctx.oracle_fail(stream, mk_case(), f"git for-each-ref and as_dict() list different refs: {mine!r:.200} vs "
                                            f"{got!r:.200}", None)
     for k, v in sorted(raw.items()):
-        if v.startswith(SYM):
+        # (git symbolic-ref cannot print a symref that is part of a loop: not compared)
+        if v.startswith(SYM) and isinstance(spec_follow(raw, k), tuple):
             rc, out, err = repos.git_rc(d, "symbolic-ref", k.decode())
             if rc != 0 or out.rstrip(b"\n") != v[len(SYM):]:
                 ctx.oracle_fail(stream, mk_case(), f"git symbolic-ref {k!r} -> rc={rc} {out!r}, expected {v[len(SYM):]!r}",
@@ -1193,7 +1204,7 @@ def run_sequence(ctx, repos, backend, init, ops=None, n_ops=30, rng=None, stream
         verdict = "unchecked"
         if oracle:
             verdict = oracle_step(ctx, stream, mk, backend, op, ret, cur, post, repos)
-        key = (backend, tuple(op_tokens(op)), hash(tuple(sorted(cur[1].items()))))
+        key = (backend, tuple(op_tokens(op)), tuple(sorted(cur[1].items())))
         ctx.count(stream, key, verdict in ("ok", "fail"), f"{op[0]}:{ret.split(':')[0] if ret.startswith(('ok', 'err')) else ret[:3]}:{verdict}")
         cur = post
         if oracle and git_every and backend in ("disk", "nsdisk") and (step + 1) % git_every == 0:
@@ -1202,7 +1213,7 @@ def run_sequence(ctx, repos, backend, init, ops=None, n_ops=30, rng=None, stream
     if oracle and backend in ("disk", "nsdisk"):
         mk = (lambda: seq_case(backend, init, res.ops, len(res.ops) - 1 if res.ops else None))
         v = git_view_check(ctx, stream + ".git", mk, repos, tgt.dir, cur[0], tgt.c if backend == "disk" else tgt.inner)
-        ctx.count(stream + ".git", (backend, hash(tuple(sorted(cur[1].items())))), v == "checked", v)
+        ctx.count(stream + ".git", (backend, tuple(sorted(cur[1].items()))), v == "checked", v)
     res.line = " ".join(["c16.seq", tgt.model_kind()] + tgt.model_state_tokens(res.st0) + ["--"] +
                         [t for op in res.ops for t in op_tokens(op)])
     res.backend, res.init = backend, init
@@ -1271,3 +1282,402 @@ def stream_sequences(ctx, repos, n_seq, n_ops=30, git_every=0):
             compare_with_model(ctx, results)
             results = []
     compare_with_model(ctx, results)
+
+
+# ------------------------------------------------------------------------------------------------
+# check_ref_format streams
+
+ALPHABET = [0x61, 0x2f, 0x2e, 0x40, 0x7b, 0x5c, 0x7e, 0x2a, 0x3a, 0x20, 0x1f, 0x7f, 0x80, 0x00]
+TOKENS = [b".lock", b"/", b".", b"a", b"@", b"{", b"@{", b"..", b"\\", b" ", b"~", b"*", b"\x7f", b"\x1f",
+          b"\x80", b"lock", b".loc", b"k", b"x.lock", b"[", b"?", b"^", b":", b"\t", b"-", b"HEAD", b"refs"]
+
+
+def git_check_many(names: list[bytes], env) -> list:
+    """`git check-ref-format <name>` for every name (True/False), None where the name cannot be passed
+    on a command line (NUL inside, empty, or a leading '-', which git takes for an option)."""
+    import os
+    from concurrent.futures import ThreadPoolExecutor
+    git = None
+    for p in env.get("PATH", "").split(os.pathsep):
+        if os.access(os.path.join(p, "git"), os.X_OK):
+            git = os.path.join(p, "git")
+            break
+    if git is None:
+        raise core.InfraError("git not on PATH")
+    devnull = os.open(os.devnull, os.O_RDWR)
+    fa = [(os.POSIX_SPAWN_DUP2, devnull, 1), (os.POSIX_SPAWN_DUP2, devnull, 2)]
+    benv = {k.encode(): v.encode() for k, v in env.items()}
+
+    def one(n: bytes):
+        if not n or b"\x00" in n or n.startswith(b"-"):
+            return None
+        pid = os.posix_spawn(git, [b"git", b"check-ref-format", n], benv, file_actions=fa)
+        _, status = os.waitpid(pid, 0)
+        rc = os.waitstatus_to_exitcode(status)
+        if rc not in (0, 1):
+            raise core.InfraError(f"git check-ref-format {n!r} exited {rc}")
+        return rc == 0
+    try:
+        with ThreadPoolExecutor(max_workers=16) as ex:
+            return list(ex.map(one, names, chunksize=64))
+    finally:
+        os.close(devnull)
+
+
+def real_check_ref_format(n: bytes) -> str:
+    from dulwich.refs import check_ref_format
+    try:
+        return "1" if check_ref_format(n) else "0"
+    except Exception:  # noqa: BLE001 - the model predicts when it raises
+        return "raise"
+
+
+def real_check_refname(n: bytes) -> str:
+    import warnings
+    from dulwich.errors import RefFormatError
+    from dulwich.refs import DictRefsContainer
+    try:
+        with warnings.catch_warnings():
+            warnings.simplefilter("ignore")
+            DictRefsContainer({})._check_refname(n)
+        return "1"
+    except RefFormatError:
+        return "0"
+
+
+def fmt_class(n: bytes):
+    return None
+
+
+def gen_fmt_names(ctx):
+    """-> (names for model-vs-real, subset to run through C git)"""
+    import itertools
+    rng = ctx.rng
+    L = 4 if ctx.thorough else 3
+    exh = [bytes(t) for ln in range(L + 1) for t in itertools.product(ALPHABET, repeat=ln)]
+    single = []
+    for b in range(256):
+        single += [b"x/" + bytes([b]), bytes([b]) + b"/x", b"x/a" + bytes([b]) + b"a", b"x/a" + bytes([b])]
+    tl = 4 if ctx.thorough else 3
+    toks = [b"".join(t) for ln in range(1, tl + 1) for t in itertools.product(TOKENS[:18], repeat=ln)]
+    rnd = []
+    for _ in range(ctx.budget(3000)):
+        k = rng.choice([2, 3, 4, 5, 6, 8, 12])
+        parts = [rng.choice(TOKENS) if rng.random() < 0.6 else bytes(rng.choice(ALPHABET + [0x62, 0x2d, 0xff]) for _ in range(rng.randint(1, 4)))
+                 for _ in range(k)]
+        rnd.append((b"/" if rng.random() < 0.5 else b"").join(parts))
+    fixed = [b"", b"@", b"a/@", b"@/a", b"HEAD", b"heads/master", b"heads/a.lock", b"heads/a.lock/b", b"heads/.a",
+             b"heads/a.", b"heads//a", b"/heads/a", b"heads/a/", b"heads/a..b", b"heads/a@{b", b"heads/a\\b",
+             b"heads/a b", b"heads/\xc3\xa9", b"heads/a.lockx", b"heads/.lock", b"a/b.lock.lock", b"refs/heads/x" * 20]
+    allnames = list(dict.fromkeys(fixed + single + exh + toks + rnd))
+    if ctx.thorough:
+        gitset = allnames
+    else:
+        short = [n for n in exh if len(n) <= 2]
+        pool = [n for n in allnames if len(n) > 2]
+        gitset = list(dict.fromkeys(fixed + single + short + rng.sample(pool, min(len(pool), ctx.budget(2500)))))
+    return allnames, gitset
+
+
+def stream_fmt(ctx, repos):
+    allnames, gitset = gen_fmt_names(ctx)
+    mouts = ctx.driver.batch(["c16.fmt " + hx(n) for n in allnames])
+    real = {}
+    for n, mo in zip(allnames, mouts):
+        r = real_check_ref_format(n)
+        real[n] = r
+        ctx.count("fmt.model", n, True, f"len{min(len(n), 9)}:{r}")
+        if r != mo:
+            ctx.disagree("fmt.model", {"name": hx(n)}, mo, r)
+        if r == "raise":
+            ctx.oracle_fail("fmt.model", {"name": hx(n)}, "check_ref_format raised instead of returning a bool", None)
+    gits = git_check_many(gitset, repos.env)
+    ngit = 0
+    for n, g in zip(gitset, gits):
+        if g is None:
+            continue
+        ngit += 1
+        ctx.count("fmt.git", n, True, f"git{int(g)}")
+        if real[n] != ("1" if g else "0"):
+            ctx.oracle_fail("fmt.git", {"name": hx(n)},
+                            f"check_ref_format({n!r}) = {real[n]} but `git check-ref-format` says {'valid' if g else 'invalid'}",
+                            fmt_class(n))
+    ctx.extra_cov["fmt_exhaustive_len"] = 4 if ctx.thorough else 3
+    ctx.extra_cov["fmt_git_comparisons"] = ngit
+    ctx.sample({"stream": "fmt", "name": "heads/a.lock", "model": "0", "real": real.get(b"heads/a.lock"), "git": False})
+    # _check_refname: model vs real
+    rng = ctx.rng
+    base = [n for n in allnames if len(n) <= 6 or n in real and real[n] == "1"]
+    names = [HEAD, b"refs/stash", b"refs/", b"refs", b"refs/heads", b"refs/heads/a", b"refs/tags//v1", b"refs//heads/a",
+             b"refs/heads/a//", b"refs/heads//a..b", b"//refs/heads/a", b"refs/stash/x", b"HEAD/x", b"head"]
+    names += [b"refs/" + n for n in rng.sample(base, min(len(base), ctx.budget(3000)))]
+    names += [rng.choice([b"refs/", b"ref/", b"", b"refs//"]) + n.replace(b"/", b"//", 1) for n in rng.sample(base, min(len(base), ctx.budget(800)))]
+    mouts = ctx.driver.batch(["c16.refname " + hx(n) for n in names])
+    for n, mo in zip(names, mouts):
+        r = real_check_refname(n)
+        ctx.count("refname.model", n, True, r)
+        if r != mo:
+            ctx.disagree("refname.model", {"name": hx(n)}, mo, r)
+
+
+# ------------------------------------------------------------------------------------------------
+# packed-refs codec streams
+
+def gen_refname(rng) -> bytes:
+    comps = [rng.choice([b"heads", b"tags", b"remotes", b"x", b"a-b", b"v1.0", b"\xc3\xa9", b"#c", b"a@b", b"A", b"lock"])
+             for _ in range(rng.randint(1, 3))]
+    return b"refs/" + b"/".join(comps)
+
+
+def gen_sha(rng) -> bytes:
+    n = rng.choice([40, 40, 40, 64])
+    s = bytes(rng.choice(b"0123456789abcdef") for _ in range(n))
+    return s.upper() if rng.random() < 0.05 else s
+
+
+def real_read_packed(ctx, data: bytes):
+    """Through DiskRefsContainer.get_packed_refs on a scratch directory."""
+    from dulwich.refs import DiskRefsContainer
+    d = ctx.scratch / "c16" / "pk"
+    d.mkdir(parents=True, exist_ok=True)
+    (d / "packed-refs").write_bytes(data)
+    c = DiskRefsContainer(str(d))
+    try:
+        packed = dict(c.get_packed_refs())
+        peeled = dict(c._peeled_refs or {})
+    except Exception as e:  # noqa: BLE001
+        return "err", type(e).__name__
+    return packed, peeled
+
+
+def fold_entries(s: str):
+    packed, peeled = {}, {}
+    for item in s.split(","):
+        if not item:
+            continue
+        n, sha, p = item.split("=")
+        packed[unhx(n)] = unhx(sha)
+        if p != "~" and unhx(p):
+            peeled[unhx(n)] = unhx(p)
+    return packed, peeled
+
+
+def stream_packed(ctx):
+    import io
+    from dulwich.refs import write_packed_refs
+    rng = ctx.rng
+    cases = []
+    for _ in range(ctx.budget(300)):
+        ents = {}
+        for _ in range(rng.choice([0, 1, 2, 3, 5, 8])):
+            ents[gen_refname(rng)] = (gen_sha(rng), gen_sha(rng) if rng.random() < 0.4 else None)
+        cases.append(ents)
+    lines = []
+    for ents in cases:
+        toks = []
+        for n, (s, p) in ents.items():
+            toks += [hx(n), hx(s), "~" if p is None else hx(p)]
+        lines.append(" ".join(["c16.packed.write"] + toks))
+    outs = ctx.driver.batch(lines)
+    files = []
+    for ents, mo in zip(cases, outs):
+        f = io.BytesIO()
+        write_packed_refs(f, {n: s for n, (s, p) in ents.items()}, {n: p for n, (s, p) in ents.items() if p is not None})
+        data = f.getvalue()
+        files.append(data)
+        ctx.count("packed.write", data, True, f"n{len(ents)}")
+        if hx(data) != mo:
+            ctx.disagree("packed.write", {"entries": {hx(n): [hx(s), None if p is None else hx(p)] for n, (s, p) in ents.items()}},
+                         mo[:200], hx(data)[:200])
+        # direct oracle: what was written is read back identically by the real reader
+        back = real_read_packed(ctx, data)
+        want = ({n: s for n, (s, p) in ents.items()}, {n: p for n, (s, p) in ents.items() if p is not None})
+        if back != want:
+            ctx.oracle_fail("packed.roundtrip", {"file": hx(data)}, f"packed-refs written and read back differ: {back!r:.200}", None)
+    # reader: mutations of valid files, CRLF, no header, stray lines
+    muts = []
+    for data in files:
+        muts.append(data)
+        k = rng.choice(["crlf", "nohdr", "hdr-nopeel", "trunc", "blank", "stray^", "dupspace", "comment", "git-hdr", "byte", "noeol"])
+        if k == "crlf":
+            muts.append(data.replace(b"\n", b"\r\n"))
+        elif k == "nohdr":
+            muts.append(data.split(b"\n", 1)[1] if b"\n" in data else b"")
+        elif k == "hdr-nopeel":
+            muts.append(b"# pack-refs with: sorted\n" + data.split(b"\n", 1)[1])
+        elif k == "trunc" and data:
+            muts.append(data[: rng.randrange(len(data))])
+        elif k == "blank":
+            p = data.find(b"\n") + 1
+            muts.append(data[:p] + b"\n" + data[p:])
+        elif k == "stray^":
+            p = data.find(b"\n") + 1
+            muts.append(data[:p] + b"^" + gen_sha(rng) + b"\n" + data[p:])
+        elif k == "dupspace":
+            muts.append(data.replace(b" refs/", b"  refs/", 1))
+        elif k == "comment":
+            muts.append(data + b"# trailing comment\n")
+        elif k == "git-hdr":
+            muts.append(b"# pack-refs with: peeled fully-peeled sorted \n" + data.split(b"\n", 1)[1])
+        elif k == "byte" and data:
+            p = rng.randrange(len(data))
+            muts.append(data[:p] + bytes([rng.choice(b" \n^#g/.~\x00")]) + data[p + 1:])
+        elif k == "noeol":
+            muts.append(data.rstrip(b"\n"))
+    muts += [b"", b"\n", b"#\n", b"# pack-refs with: peeled\n", b"^" + b"a" * 40 + b"\n"]
+    outs = ctx.driver.batch(["c16.packed.read " + hx(m) for m in muts])
+    for data, mo in zip(muts, outs):
+        back = real_read_packed(ctx, data)
+        ctx.count("packed.read", data, True, "err" if back[0] == "err" else "ok")
+        mback = ("err",) if mo == "err" else fold_entries(mo[3:])
+        if (back[0] == "err") != (mo == "err") or (back[0] != "err" and back != mback):
+            ctx.disagree("packed.read", {"file": hx(data)}, mo[:200], repr(back)[:200])
+
+
+# ------------------------------------------------------------------------------------------------
+# corpus, run, search, replay
+
+def run_case(ctx, repos, stream: str, case: dict):
+    """Re-execute one stored case (corpus witness or replay file) through the same oracles."""
+    if "name" in case:
+        n = unhx(case["name"])
+        r = real_check_ref_format(n)
+        g = git_check_many([n], repos.env)[0]
+        mo = ctx.driver.batch(["c16.fmt " + hx(n)])[0]
+        print(f"  check_ref_format({n!r}) = {r}; git check-ref-format: {g}; model: {mo}")
+        if r == "raise":
+            ctx.oracle_fail(stream, case, "check_ref_format raised", None)
+        elif g is not None and r != ("1" if g else "0"):
+            ctx.oracle_fail(stream, case, f"check_ref_format({n!r}) = {r} but git says {g}", fmt_class(n))
+        return
+    if "file" in case:
+        data = unhx(case["file"])
+        print("  packed-refs read:", real_read_packed(ctx, data))
+        return
+    if "backend" in case:
+        ops = [op_from_json(o) for o in case["ops"]]
+        res = run_sequence(ctx, repos, case["backend"], init_from_json(case["init"]), ops, stream=stream.split(".git")[0].split(".model")[0],
+                           git_every=1)
+        for op, ret in zip(res.ops, res.rets):
+            print(f"  {op_readable(op)} -> {ret[:100]}")
+        return
+    raise core.InfraError(f"unrecognised case {case!r:.200}")
+
+
+def _run_corpus(ctx, repos):
+    import json
+    d = core.VERIF / "corpus" / "C16"
+    if not d.exists():
+        return
+    for f in sorted(d.glob("*.json")):
+        c = json.loads(f.read_text())
+        before = len(ctx.oracle_failures) + sum(ctx.known_hit.values())
+        run_case(ctx, repos, c.get("stream", "corpus"), c["case"])
+        after = len(ctx.oracle_failures) + sum(ctx.known_hit.values())
+        ctx.count("corpus", f.name, True, "fails" if after > before else "holds")
+
+
+def run(ctx: core.Ctx):
+    repos = Repos(ctx)
+    ctx.assumptions += [
+        "ref names in operation sequences have no empty path component; one work tree; no concurrent writer; "
+        "no symlinks below the git dir (state assumptions of the Disk model, true of everything generated)",
+        "exception classes are compared after canonicalisation (every OSError subclass = 'os')",
+        "C git 2.39.5 is the third party for for-each-ref / symbolic-ref / show-ref -d / check-ref-format; names "
+        "containing NUL, the empty name and names with a leading '-' cannot be passed to git check-ref-format",
+        "reftable backend: only set_if_equals/add_if_new/remove_if_equals/set_symbolic_ref (+__setitem__/__delitem__) "
+        "are modelled, observed through read_loose_ref",
+    ]
+    try:
+        from dulwich.reftable import ReftableRefsContainer  # noqa: F401
+        ctx.extra_cov["reftable_constructible"] = True
+    except Exception as e:  # noqa: BLE001
+        ctx.extra_cov["reftable_constructible"] = False
+        ctx.notes.append(f"reftable backend not importable at this commit: {e}")
+        BACKENDS.remove("reftable")
+    _run_corpus(ctx, repos)
+    stream_fmt(ctx, repos)
+    stream_packed(ctx)
+    stream_sequences(ctx, repos, ctx.budget(60), git_every=5 if ctx.thorough else 0)
+    ctx.extra_cov["backends"] = list(BACKENDS)
+    ctx.extra_cov["universe"] = [n.decode() for n in NAMES]
+
+
+def search(ctx: core.Ctx):
+    """Failing-input search after a broken obligation / correspondence: the direct oracles, harder, around the
+    disagreeing cases."""
+    repos = Repos(ctx)
+    rng = ctx.rng
+    # 1. ref-name cases: the disagreeing names and their one-byte neighbourhood against C git
+    names = []
+    for dgr in ctx.disagreements:
+        c = dgr["case"]
+        if "name" in c:
+            n = unhx(c["name"])
+            if n.startswith(b"refs/") and dgr["stream"].startswith("refname"):
+                n = n[5:]
+            names.append(n)
+            for i in range(len(n) + 1):
+                for b in ALPHABET + [0x6c, 0x6f, 0x63, 0x6b]:
+                    names.append(n[:i] + bytes([b]) + n[i:])
+                    if i < len(n):
+                        names.append(n[:i] + bytes([b]) + n[i + 1:])
+                if i < len(n):
+                    names.append(n[:i] + n[i + 1:])
+    lean_broken = ctx.lean is not None and not ctx.lean.ok
+    if lean_broken or names:
+        import itertools
+        names += [bytes(t) for ln in range(5) for t in itertools.product(ALPHABET, repeat=ln)]
+        names += [b"".join(t) for ln in range(1, 4) for t in itertools.product(TOKENS, repeat=ln)]
+    names = list(dict.fromkeys(names))
+    for n, g in zip(names, git_check_many(names, repos.env)):
+        if g is None:
+            continue
+        r = real_check_ref_format(n)
+        if r != ("1" if g else "0"):
+            ctx.oracle_fail("search.fmt.git", {"name": hx(n)},
+                            f"check_ref_format({n!r}) = {r} but `git check-ref-format` says {'valid' if g else 'invalid'}", fmt_class(n))
+            if len(ctx.oracle_failures) >= 3:
+                return
+    # 2. sequences: replay the disagreeing ones on every backend with the oracle after every step, then many more
+    for dgr in ctx.disagreements:
+        c = dgr["case"]
+        if "backend" in c:
+            ops = [op_from_json(o) for o in c["ops"]]
+            for b in BACKENDS:
+                run_sequence(ctx, repos, b, init_from_json(c["init"]), ops, stream="search.seq." + b, git_every=1)
+    if ctx.oracle_failures:
+        return
+    for i in range(ctx.budget(150)):
+        init = gen_init(rng, repos)
+        first = run_sequence(ctx, repos, "disk", init, None, 30, rng, stream="search.seq.disk", git_every=3)
+        for b in BACKENDS[1:]:
+            run_sequence(ctx, repos, b, init, first.ops, stream="search.seq." + b, git_every=3)
+        if ctx.oracle_failures:
+            return
+    # 3. packed-refs files
+    stream_packed(ctx)
+
+
+def replay(ctx: core.Ctx, data: dict) -> int:
+    repos = Repos(ctx)
+    if data.get("kind") == "broken-obligation":
+        print("replay: this file names a broken proof obligation / correspondence, not a failing input:")
+        for w in data.get("no_longer_checks", []):
+            print("  ", w)
+        for dgr in data.get("disagreements", [])[:3]:
+            print("  disagreement:", str(dgr)[:300])
+            if "case" in dgr and dgr["case"]:
+                run_case(ctx, repos, "replay", dgr["case"])
+    else:
+        run_case(ctx, repos, data.get("stream", "replay"), data.get("case", {}))
+    for k in ctx.known:
+        if ctx.known_hit.get(k["id"]):
+            print(f"KNOWN-FINDING: property=C16 {k['id']}: {k['what']}")
+    if ctx.oracle_failures:
+        for f in ctx.oracle_failures[:5]:
+            print("  fails:", f["what"][:300])
+        print(f"VIOLATION property=C16 replay={data.get('_path', '<replayed>')}")
+        return 1
+    print("replay: property holds on this case" + (" (apart from known findings)" if ctx.known_hit else ""))
+    return 0
